@@ -1,7 +1,7 @@
 """C02 — type soundness: decided clause = primitive operators accepted by the checker are handled by the compiler (R11b)."""
 from . import e11
 
-CRATES = {"gluon_vm", "gluon_check", "gluon_base"}
+CRATES = {"gluon_vm", "gluon_check", "gluon_base", "gluon"}
 
 
 def run(fb, rep, tier, cfg):
@@ -12,8 +12,11 @@ def run(fb, rep, tier, cfg):
         "operator reaches `load_identifier` -> ice!(\"Undefined variable\") on a program the checker accepted. Everything else in "
         "C02 is not decided. R2g: GADT refinement bookkeeping — refinement of rigid variables is enabled only in Typecheck::refines, "
         "the skolems it may bind are recorded by a deep traversal of the scrutinee type that dominates the refining unification, and "
-        "every match alternative resets what it recorded before the next alternative or the return.")
+        "every match alternative resets what it recorded before the next alternative or the return. R2h: compiler_pipeline::run_io (which "
+        "replaces an IO action by its result and rewrites the type) is called only by top-level executables, never by the function that "
+        "stores an evaluated module for importers, who are typed against the module's checked type.")
     rep.assumptions += ["only operators spelled `#<alphabetic type name><symbol>` are considered"]
     e11.r11b(fb, rep)
     from . import r2g
     r2g.run(fb, rep)
+    r2g.r2h(fb, rep)
